@@ -1,7 +1,545 @@
-//! C13 — not built yet
-use crate::vcore::Tier;
+//! C13 — SNA save then load restores the machine; saving is side-effect free.
+//! E-PROD over (save state x receiving state): every SNA-carried item, the paging latch with its
+//! lock and all RAM are compared after the load, then both machines run 24 instructions in lock
+//! step (which exposes stale halted / prefix / interrupt latches of the receiver).
 
-pub fn run(_tier: Tier, _seed: u64, _replay: Option<String>) -> i32 {
-    eprintln!("MACHINERY: check C13 is not built yet");
-    2
+use crate::rig::{self, Emu, Opts, RegsView, VAsset, VRecorder};
+use crate::vcore::{par_for, Ctx, Tier};
+use rustzx_core::host::{Snapshot, SnapshotRecorder};
+use serde_json::json;
+
+const PROG: u16 = 0x9000;
+const OUTCODE: u16 = 0x8800;
+
+/// observer program run after the restore: touches every register pair, both register sets,
+/// index registers, the stack, I/R, and memory
+const OBSERVER: &[u8] = &[
+    0x09, // ADD HL,BC  (first: a stale DD/FD prefix would turn it into ADD IX,BC)
+    0x08, // EX AF,AF'
+    0xD9, // EXX
+    0x09, // ADD HL,BC
+    0x19, // ADD HL,DE
+    0x8C, // ADC A,H
+    0xD9, // EXX
+    0x08, // EX AF,AF'
+    0x09, // ADD HL,BC
+    0xDD, 0x19, // ADD IX,DE
+    0xFD, 0x09, // ADD IY,BC
+    0xED, 0x5F, // LD A,R
+    0xE5, // PUSH HL
+    0xDD, 0xE5, // PUSH IX
+    0xC1, // POP BC
+    0xED, 0x57, // LD A,I  (P/V = IFF2)
+    0xF5, // PUSH AF
+    0xE1, // POP HL
+    0x22, 0x00, 0xA0, // LD (A000),HL
+    0x3A, 0x00, 0xC0, // LD A,(C000)
+    0x86, // ADD A,(HL)
+    0x32, 0x02, 0xA0, // LD (A002),A
+    0x18, 0xFE, // JR $
+];
+
+#[derive(Clone, Debug)]
+pub struct SaveState {
+    pub m128: bool,
+    pub pattern: u8,
+    pub im: u8,
+    pub iff2: bool,
+    pub border: u8,
+    pub r: u8,
+    pub i: u8,
+    pub latch: u8,
+    pub sp: u16,
+}
+
+#[derive(Clone, Copy, Debug, PartialEq, Eq)]
+pub enum Receiver {
+    SameNow,
+    SameAfter1,
+    SameAfter1000,
+    Fresh,
+    Halted,
+    MidPrefix,
+    LockedOtherBank,
+    OtherEverything,
+    AfterEi,
+}
+
+fn marker(bank: u8, off: usize, salt: u8) -> u8 {
+    ((off as u32).wrapping_mul(11) + (off as u32 >> 8) * 5 + bank as u32 * 37 + salt as u32) as u8
+}
+
+fn machine(m128: bool) -> Emu {
+    let mut o = Opts::machine(m128);
+    o.sound = false;
+    rig::emu_stepping(&o)
+}
+
+fn fill_ram(e: &mut Emu, m128: bool, salt: u8) {
+    if m128 {
+        for b in 0..8u8 {
+            rig::cpu_out(e, OUTCODE, 0x7FFD, b);
+            let bytes: Vec<u8> = (0..16384).map(|i| marker(b, i, salt)).collect();
+            rig::poke(e, 0xC000, &bytes);
+        }
+        rig::cpu_out(e, OUTCODE, 0x7FFD, 0);
+    } else {
+        for (w, b) in [(1u16, 5u8), (2, 2), (3, 0)] {
+            let bytes: Vec<u8> = (0..16384).map(|i| marker(b, i, salt)).collect();
+            rig::poke(e, w << 14, &bytes);
+        }
+    }
+}
+
+fn regs_for(s: &SaveState) -> RegsView {
+    let p = s.pattern as u16;
+    let mut r = RegsView::default();
+    if s.pattern == 0 {
+        r.af = 0x0102;
+        r.bc = 0x0304;
+        r.de = 0x0506;
+        r.hl = 0x0708;
+        r.af_ = 0x090A;
+        r.bc_ = 0x0B0C;
+        r.de_ = 0x0D0E;
+        r.hl_ = 0x0F10;
+        r.ix = 0x1112;
+        r.iy = 0x1314;
+    } else {
+        r.af = 0xFEFD ^ p;
+        r.bc = 0xFCFB;
+        r.de = 0xFAF9;
+        r.hl = 0xF8F7;
+        r.af_ = 0xF6F5;
+        r.bc_ = 0xF4F3;
+        r.de_ = 0xF2F1;
+        r.hl_ = 0xF0EF;
+        r.ix = 0xEEED;
+        r.iy = 0xECEB;
+    }
+    r.sp = s.sp;
+    r.pc = PROG;
+    r.i = s.i;
+    r.r = s.r;
+    r.im = s.im;
+    r.iff1 = s.iff2;
+    r.iff2 = s.iff2;
+    r
+}
+
+/// Build the machine in the state to be saved
+fn build_saver(s: &SaveState) -> Emu {
+    let mut e = machine(s.m128);
+    fill_ram(&mut e, s.m128, 1);
+    rig::poke(&mut e, PROG, OBSERVER);
+    if s.m128 {
+        rig::cpu_out(&mut e, OUTCODE, 0x7FFD, s.latch);
+    }
+    rig::cpu_out(&mut e, OUTCODE, 0x00FE, s.border);
+    // keep interrupts out of the lock-step continuation: place the frame clock after the INT pulse
+    e.verif_set_frame_clocks(1000);
+    rig::set_regs(e.verif_cpu(), &regs_for(s));
+    e
+}
+
+fn all_ram(e: &Emu, m128: bool) -> Vec<Vec<u8>> {
+    let n = if m128 { 8 } else { 3 };
+    (0..n).map(|b| e.verif_ram_bank(b).to_vec()).collect()
+}
+
+fn sna_carried(v: &RegsView) -> RegsView {
+    // items the SNA format carries (IFF1 is restored from IFF2 by convention; hidden latches are not carried)
+    let mut x = v.clone();
+    x.iff1 = false;
+    x.memptr = 0;
+    x.q = 0;
+    x.prefix = 0;
+    x.skip_int = false;
+    x.halted = false;
+    x
+}
+
+fn diff_regs(a: &RegsView, b: &RegsView) -> Vec<&'static str> {
+    let mut d = Vec::new();
+    macro_rules! f {
+        ($n:ident, $s:expr) => {
+            if a.$n != b.$n {
+                d.push($s);
+            }
+        };
+    }
+    f!(af, "AF");
+    f!(bc, "BC");
+    f!(de, "DE");
+    f!(hl, "HL");
+    f!(af_, "AF'");
+    f!(bc_, "BC'");
+    f!(de_, "DE'");
+    f!(hl_, "HL'");
+    f!(ix, "IX");
+    f!(iy, "IY");
+    f!(sp, "SP");
+    f!(pc, "PC");
+    f!(i, "I");
+    f!(r, "R");
+    f!(im, "IM");
+    f!(iff2, "IFF2");
+    d
+}
+
+fn prepare_receiver(rx: Receiver, s: &SaveState, saver: &mut Emu) -> Option<Emu> {
+    let m128 = s.m128;
+    match rx {
+        Receiver::SameNow | Receiver::SameAfter1 | Receiver::SameAfter1000 => None,
+        Receiver::Fresh => Some(machine(m128)),
+        Receiver::Halted => {
+            let mut e = machine(m128);
+            rig::poke(&mut e, 0x8000, &[0x76]);
+            e.verif_cpu().regs.set_pc(0x8000);
+            rig::step(&mut e);
+            rig::step(&mut e);
+            Some(e)
+        }
+        Receiver::MidPrefix => {
+            let mut e = machine(m128);
+            rig::poke(&mut e, 0x8000, &[0xDD, 0xDD, 0x00]);
+            e.verif_cpu().regs.set_pc(0x8000);
+            rig::step(&mut e);
+            Some(e)
+        }
+        Receiver::AfterEi => {
+            let mut e = machine(m128);
+            rig::poke(&mut e, 0x8000, &[0xFB, 0x00]);
+            e.verif_cpu().regs.set_pc(0x8000);
+            rig::step(&mut e);
+            Some(e)
+        }
+        Receiver::LockedOtherBank => {
+            let mut e = machine(m128);
+            if m128 {
+                rig::cpu_out(&mut e, OUTCODE, 0x7FFD, 0x20 | ((s.latch & 7) ^ 3) | 0x08);
+            }
+            fill_ram_partial(&mut e, m128);
+            Some(e)
+        }
+        Receiver::OtherEverything => {
+            let mut e = machine(m128);
+            fill_ram(&mut e, m128, 99);
+            if m128 {
+                rig::cpu_out(&mut e, OUTCODE, 0x7FFD, (s.latch & 0x1F) ^ 0x1F);
+            }
+            rig::cpu_out(&mut e, OUTCODE, 0x00FE, s.border ^ 7);
+            let mut r = regs_for(&SaveState { pattern: s.pattern ^ 1, im: (s.im + 1) % 3, iff2: !s.iff2, i: !s.i, r: !s.r, sp: 0x7000, ..s.clone() });
+            r.pc = 0x1234;
+            rig::set_regs(e.verif_cpu(), &r);
+            let _ = saver;
+            Some(e)
+        }
+    }
+}
+
+fn fill_ram_partial(e: &mut Emu, _m128: bool) {
+    let bytes: Vec<u8> = (0..256).map(|i| (i as u8) ^ 0x5A).collect();
+    rig::poke(e, 0x8000, &bytes);
+    rig::poke(e, 0x4000, &bytes);
+}
+
+fn state_json(s: &SaveState, rx: Receiver) -> serde_json::Value {
+    json!({"kind":"saveload","m128":s.m128,"pattern":s.pattern,"im":s.im,"iff2":s.iff2,"border":s.border,"r":s.r,"i":s.i,"latch":s.latch,"sp":s.sp,"receiver":format!("{:?}", rx)})
+}
+
+pub fn run_case(ctx: &Ctx, s: &SaveState, rx: Receiver, verbose: bool) -> u64 {
+    let mname = if s.m128 { "128k" } else { "48k" };
+    let mut saver = build_saver(s);
+    let case = state_json(s, rx);
+    let before_regs = rig::regs_view(saver.verif_cpu());
+    let before_ram = all_ram(&saver, s.m128);
+    let before_paging = saver.verif_paging();
+    let mut rec = VRecorder::default();
+    let res = std::panic::catch_unwind(std::panic::AssertUnwindSafe(|| saver.save_snapshot(SnapshotRecorder::Sna(&mut rec_wrap(&mut rec)))));
+    match res {
+        Ok(Ok(())) => {}
+        Ok(Err(e)) => {
+            ctx.violation(&format!("C13:save-error:{}", mname), &format!("save_snapshot returned {:?}", e), case);
+            return 0;
+        }
+        Err(_) => {
+            ctx.violation(&format!("C13:save-panic:{}", mname), "save_snapshot panicked", case);
+            return 0;
+        }
+    }
+    let file = rec.data.clone();
+    // ---- side-effect clause
+    let after_regs = rig::regs_view(saver.verif_cpu());
+    let after_ram = all_ram(&saver, s.m128);
+    let stack_in_rom = s.sp.wrapping_sub(2) < 0x4000 || s.sp.wrapping_sub(1) < 0x4000;
+    if after_regs != before_regs {
+        let d = diff_regs(&before_regs, &after_regs);
+        ctx.violation(
+            &format!("C13:save-side-effect:registers:{}:{}", mname, if stack_in_rom { "stack-in-rom" } else { "stack-in-ram" }),
+            &format!("taking the snapshot changed the running machine's registers {:?} (SP={:04x}): before {:x?} after {:x?}", d, s.sp, before_regs, after_regs),
+            case.clone(),
+        );
+    }
+    if after_ram != before_ram {
+        let mut where_ = String::new();
+        'o: for b in 0..before_ram.len() {
+            for o in 0..16384 {
+                if before_ram[b][o] != after_ram[b][o] {
+                    where_ = format!("bank {} offset {:04x}: {:02x} -> {:02x}", b, o, before_ram[b][o], after_ram[b][o]);
+                    break 'o;
+                }
+            }
+        }
+        ctx.violation(
+            &format!("C13:save-side-effect:memory:{}", mname),
+            &format!("taking the snapshot changed the running machine's RAM ({}; SP={:04x})", where_, s.sp),
+            case.clone(),
+        );
+    }
+    // the reference point for "the state at the moment of saving"
+    let saved_regs = before_regs.clone();
+    let saved_ram = before_ram.clone();
+    // ---- receiver
+    let mut receiver = match rx {
+        Receiver::SameNow => None,
+        Receiver::SameAfter1 => {
+            rig::step(&mut saver);
+            None
+        }
+        Receiver::SameAfter1000 => {
+            for _ in 0..1000 {
+                rig::step(&mut saver);
+            }
+            None
+        }
+        _ => prepare_receiver(rx, s, &mut saver),
+    };
+    // a pristine twin of the saved machine to continue from the saved state
+    let mut twin = build_saver(s);
+    let target: &mut Emu = match receiver.as_mut() {
+        Some(r) => r,
+        None => &mut saver,
+    };
+    let res = std::panic::catch_unwind(std::panic::AssertUnwindSafe(|| target.load_snapshot(Snapshot::Sna(VAsset::new(file.clone())))));
+    match res {
+        Ok(Ok(())) => {}
+        Ok(Err(e)) => {
+            ctx.violation(&format!("C13:load-error:{}", mname), &format!("load_snapshot of the file just saved returned {:?}", e), case);
+            return 0;
+        }
+        Err(_) => {
+            ctx.violation(&format!("C13:load-panic:{}", mname), "load_snapshot of the file just saved panicked", case);
+            return 0;
+        }
+    }
+    target.verif_set_frame_clocks(1000);
+    let got = rig::regs_view(target.verif_cpu());
+    let pc_judged = s.m128 || !stack_in_rom;
+    let mut want = sna_carried(&saved_regs);
+    let mut gotc = sna_carried(&got);
+    if !pc_judged {
+        want.pc = 0;
+        gotc.pc = 0;
+    }
+    let d = diff_regs(&want, &gotc);
+    if verbose {
+        println!("  saved   : {:x?}", saved_regs);
+        println!("  restored: {:x?}", got);
+    }
+    if !d.is_empty() {
+        ctx.violation(
+            &format!("C13:restore:registers:{}:{}", mname, d.join("+")),
+            &format!("after save+load into receiver {:?} the registers {:?} differ: saved {:x?} restored {:x?}", rx, d, saved_regs, got),
+            case.clone(),
+        );
+    }
+    let b: u8 = target.border_color().into();
+    if b != s.border & 7 {
+        ctx.violation(&format!("C13:restore:border:{}", mname), &format!("border {} restored as {}", s.border & 7, b), case.clone());
+    }
+    if s.m128 {
+        let p = target.verif_paging();
+        if p != before_paging {
+            ctx.violation(
+                &format!("C13:restore:paging:{:?}", rx),
+                &format!("paging state (7FFD value, paging enabled, screen bank, map) saved as {:?} restored as {:?} into receiver {:?}", before_paging, p, rx),
+                case.clone(),
+            );
+        }
+    }
+    let got_ram = all_ram(target, s.m128);
+    let mut ram_ok = true;
+    'o2: for bnk in 0..saved_ram.len() {
+        for o in 0..16384usize {
+            if saved_ram[bnk][o] != got_ram[bnk][o] {
+                // 48K: the two bytes below SP hold PC inside the file; they are part of the format
+                let is48_stack = !s.m128 && {
+                    let a = match bnk {
+                        0 => 0x4000 + o,
+                        1 => 0x8000 + o,
+                        _ => 0xC000 + o,
+                    } as u16;
+                    a == s.sp.wrapping_sub(1) || a == s.sp.wrapping_sub(2)
+                };
+                if is48_stack {
+                    continue;
+                }
+                ram_ok = false;
+                ctx.violation(
+                    &format!("C13:restore:memory:{}:{:?}", mname, rx),
+                    &format!("RAM bank {} offset {:04x} saved as {:02x} restored as {:02x} (receiver {:?})", bnk, o, saved_ram[bnk][o], got_ram[bnk][o], rx),
+                    case.clone(),
+                );
+                break 'o2;
+            }
+        }
+    }
+    // ---- lock-step continuation (only meaningful when the static state was restored)
+    if d.is_empty() && ram_ok && pc_judged {
+        if rx == Receiver::AfterEi {
+            // INT active at the very first boundary: a stale EI latch would hold the interrupt off
+            twin.verif_set_frame_clocks(4);
+            target.verif_set_frame_clocks(4);
+        }
+        for k in 0..24 {
+            rig::step(&mut twin);
+            rig::step(target);
+            let a = rig::regs_view(twin.verif_cpu());
+            let bb = rig::regs_view(target.verif_cpu());
+            let mut a2 = a.clone();
+            let mut b2 = bb.clone();
+            // IFF1 is not carried (restored from IFF2): LD A,I exposes IFF2 only
+            a2.iff1 = false;
+            b2.iff1 = false;
+            a2.memptr = 0;
+            b2.memptr = 0;
+            a2.q = 0;
+            b2.q = 0;
+            if a2 != b2 {
+                let dd = diff_regs(&a2, &b2);
+                ctx.violation(
+                    &format!("C13:continuation:{}:{:?}", mname, rx),
+                    &format!(
+                        "after save+load into receiver {:?}, instruction #{} of the continuation behaves differently from the saved machine: {:?} halted {}/{} prefix {:02x}/{:02x}; saved machine {:x?}, restored {:x?}",
+                        rx, k, dd, a.halted, bb.halted, a.prefix, bb.prefix, a, bb
+                    ),
+                    case.clone(),
+                );
+                break;
+            }
+        }
+    }
+    crate::vcore::fnv(&file[..27]) ^ (rx as u64)
+}
+
+// the recorder is passed by value to save_snapshot: wrap a &mut
+struct RecRef<'a>(&'a mut VRecorder);
+impl<'a> rustzx_core::host::DataRecorder for RecRef<'a> {
+    fn write(&mut self, buf: &[u8]) -> Result<usize, rustzx_core::error::IoError> {
+        self.0.data.extend_from_slice(buf);
+        Ok(buf.len())
+    }
+}
+impl<'a> rustzx_core::host::DataRecorder for &mut RecRef<'a> {
+    fn write(&mut self, buf: &[u8]) -> Result<usize, rustzx_core::error::IoError> {
+        self.0.data.extend_from_slice(buf);
+        Ok(buf.len())
+    }
+}
+fn rec_wrap(r: &mut VRecorder) -> RecRef<'_> {
+    RecRef(r)
+}
+
+pub fn states(quick: bool) -> Vec<SaveState> {
+    let mut v = Vec::new();
+    for m128 in [false, true] {
+        let latches: Vec<u8> = if !m128 {
+            vec![0]
+        } else if quick {
+            vec![0x00, 0x01, 0x07, 0x08, 0x10, 0x13, 0x1F, 0x20, 0x25, 0x2F, 0x3F, 0x45, 0x80, 0xC3, 0xE0, 0xFF]
+        } else {
+            (0..=255u8).collect()
+        };
+        let sps: Vec<u16> = if m128 { vec![0x8000, 0xBFFE] } else { vec![0x8000, 0x4002, 0x4001, 0x4000, 0x0001, 0x0000, 0xFFFF] };
+        for (k, latch) in latches.iter().enumerate() {
+            for (j, sp) in sps.iter().enumerate() {
+                // the small domains rotate so that every value of each occurs with every latch/sp in thorough
+                let combos: Vec<(u8, u8, bool, u8, u8, u8)> = if quick {
+                    vec![((k + j) as u8 % 2, (k + j) as u8 % 3, (k + j) % 2 == 0, (k * 3 + j) as u8 % 8, [0x00u8, 0x7F, 0x80, 0xFF][(k + j) % 4], [0xFFu8, 0x80, 0x7F, 0x00][(k + 2 * j) % 4])]
+                } else {
+                    let mut c = Vec::new();
+                    for pattern in 0..2u8 {
+                        for im in 0..3u8 {
+                            let iff2 = (pattern + im) % 2 == 0;
+                            let border = ((k + j) as u8 + im * 3 + pattern) % 8;
+                            let r = [0x00u8, 0x7F, 0x80, 0xFF][(k + im as usize) % 4];
+                            let i = [0xFFu8, 0x80, 0x7F, 0x00][(j + pattern as usize) % 4];
+                            c.push((pattern, im, iff2, border, r, i));
+                        }
+                    }
+                    c
+                };
+                for (pattern, im, iff2, border, r, i) in combos {
+                    v.push(SaveState { m128, pattern, im, iff2, border, r, i, latch: *latch, sp: *sp });
+                }
+            }
+        }
+    }
+    v
+}
+
+pub const RECEIVERS: [Receiver; 9] = [
+    Receiver::SameNow,
+    Receiver::SameAfter1,
+    Receiver::SameAfter1000,
+    Receiver::Fresh,
+    Receiver::Halted,
+    Receiver::MidPrefix,
+    Receiver::AfterEi,
+    Receiver::LockedOtherBank,
+    Receiver::OtherEverything,
+];
+
+pub fn run(tier: Tier, seed: u64, replay: Option<String>) -> i32 {
+    let ctx = Ctx::new("C13", tier, seed, "exploration");
+    if let Some(path) = replay {
+        let v: serde_json::Value = serde_json::from_slice(&rig::read_file(&path)).expect("replay json");
+        let c = &v["case"];
+        let s = SaveState {
+            m128: c["m128"].as_bool().unwrap(),
+            pattern: c["pattern"].as_u64().unwrap() as u8,
+            im: c["im"].as_u64().unwrap() as u8,
+            iff2: c["iff2"].as_bool().unwrap(),
+            border: c["border"].as_u64().unwrap() as u8,
+            r: c["r"].as_u64().unwrap() as u8,
+            i: c["i"].as_u64().unwrap() as u8,
+            latch: c["latch"].as_u64().unwrap() as u8,
+            sp: c["sp"].as_u64().unwrap() as u16,
+        };
+        let rx = RECEIVERS.iter().find(|r| format!("{:?}", r) == c["receiver"].as_str().unwrap_or("")).copied().unwrap_or(Receiver::Fresh);
+        println!("replay: {:?} into {:?}", s, rx);
+        run_case(&ctx, &s, rx, true);
+        let n = ctx.violation_classes();
+        println!("replay: {} violation class(es) reproduced", n);
+        return (n > 0) as i32;
+    }
+    let sts = states(!tier.is_thorough());
+    let jobs: Vec<(usize, Receiver)> = (0..sts.len()).flat_map(|i| RECEIVERS.iter().map(move |r| (i, *r))).collect();
+    par_for(jobs.len(), 2, |j| {
+        let (i, rx) = jobs[j];
+        let d = run_case(&ctx, &sts[i], rx, false);
+        ctx.outcome(d);
+        ctx.add_eval(1);
+    });
+    ctx.add_nontrivial(jobs.len() as u64);
+    ctx.sample(state_json(&sts[sts.len() / 2], Receiver::LockedOtherBank));
+    ctx.note("save_states", json!(sts.len()));
+    ctx.note("receivers", json!(RECEIVERS.iter().map(|r| format!("{:?}", r)).collect::<Vec<_>>()));
+    ctx.note("not_judged", json!("IFF1 (not carried by SNA), MEMPTR/Q, 48K PC when the two bytes below SP are ROM, the two stack bytes holding PC in a 48K file"));
+    ctx.finish(
+        "save states: two register patterns with all 26 register bytes pairwise distinct x IM x IFF2 x border x R,I in {00,7F,80,FF} x (128K) all 256 paging values reached by CPU-executed OUTs (16 in quick) x SP in {8000,4002,4001,4000,0001,0000,FFFF} (48K), RAM position-coded per bank; receivers: same machine now / 1 / 1000 instructions later, fresh, halted, between a DD prefix and its opcode, right after EI, paging locked on another bank, everything different. save_snapshot through a recording DataRecorder, load_snapshot, then: registers, border, paging latch+lock+map, every RAM bank, and 24 lock-step instructions of an observer program against a pristine twin of the saved machine; registers and all RAM of the saving machine before/after the save. distinct_nontrivial = (state, receiver) pairs",
+        false,
+        &["hooks: verif_cpu, verif_ram_bank, verif_paging, verif_set_frame_clocks (to keep the INT pulse out of the continuation)"],
+    )
 }
